@@ -516,6 +516,18 @@ func init() {
 	// ---- crypto / random ------------------------------------------------------------
 	reg("crypto/rand.Read io.ReadFull$rand", func(e *Engine, fr *frame, a []Value) Value {
 		s := a[0].(Slice)
+		if dom := e.cfg.Bounds["rand_domain"]; dom > 0 && s.Len > 0 {
+			// small-domain randomness: all bytes zero except the last, which is a tape draw in
+			// [0, dom). Candidate ids/codes then come from a tiny set, so "both callers draw
+			// the same value" is a solver choice; natively verifRandReader feeds the same bytes.
+			for i := 0; i < s.Len-1; i++ {
+				s.B.E[s.Off+i] = e.tb.Const(8, 0)
+			}
+			b := e.fresh("byte", BV(8))
+			e.Assume(e.tb.Cmp(OpUlt, b, e.tb.Const(8, uint64(dom))))
+			s.B.E[s.Off+s.Len-1] = b
+			return Tuple{e.mkInt(int64(s.Len)), Iface{}}
+		}
 		for i := 0; i < s.Len; i++ {
 			s.B.E[s.Off+i] = e.freshInternal("rand", BV(8))
 		}
